@@ -124,8 +124,8 @@ def run_api(prop, tier, seed, profiles, builds, own_guards, crash_decisive=False
     jobs, traces = [], []
     k = 0
     for i in range(nruns[q]):
-        for b in builds:
-            prof = profiles[k % len(profiles)]
+        for bi, b in enumerate(builds):
+            prof = profiles[(i + bi) % len(profiles)]      # every build sees every profile
             env = envs[k % len(envs)]
             out = os.path.join(od, "t_%s_%s_%d.ndjson" % (b, prof, k))
             s = seed * 100003 + k
